@@ -34,6 +34,16 @@ pub fn invariant_violation(w: &asca::verif::Word) -> Option<String> {
     None
 }
 
+/// attribution of an ill-formed result to the kinds of rule in the offending group (insertion rules and structure/variable outputs have listed findings)
+pub fn group_tag(rules: &[String]) -> String {
+    let kind = |r: &str| { let r = r.split(";;").next().unwrap_or(""); let (inp, rest) = r.split_once('>').unwrap_or((r, "")); let out = rest.split(['/', '|']).next().unwrap_or("").trim();
+        if inp.trim().trim_end_matches(['=', '-']).trim() == "*" || inp.contains('∅') { "insertion" } else if out == "*" || out == "∅" { "deletion" } else if out == "&" { "metathesis" } else { "substitution" } };
+    let mut kinds: Vec<&str> = rules.iter().map(|r| kind(r)).collect(); kinds.sort(); kinds.dedup();
+    let out_of = |r: &str| -> String { let r = r.split(";;").next().unwrap_or(""); r.split_once('>').map(|x| x.1).unwrap_or("").split(['/', '|']).next().unwrap_or("").to_string() };
+    let syll_out = rules.iter().any(|r| { let o = out_of(r); o.contains('<') || o.contains('⟨') || o.split_whitespace().any(|tk| tk.chars().next().map(|c| c.is_ascii_digit()).unwrap_or(false)) });
+    if kinds.contains(&"insertion") { "a group with an insertion rule".to_string() } else if syll_out { "a group substituting a structure or a variable".to_string() } else { kinds.join("+") }
+}
+
 /// a rule biased to deletion / metathesis / boundary edits / tone merging
 fn prosodic_rule(t: &mut Tape, segs: &[(String, MSeg)]) -> String {
     let x = |t: &mut Tape| if !segs.is_empty() && t.chance(3, 4) { segs[t.pick(segs.len())].0.clone() } else { ["C", "V", "[]", "O", "S"][t.pick(5)].to_string() };
@@ -100,14 +110,7 @@ impl Property for C08 {
                 let mut prev = MWord::from_asca(&w); let mut nt = false;
                 for (i, s) in states.iter().enumerate() {
                     if let Some(v) = invariant_violation(s) {
-                        // attribute to the kinds of rule in the offending group (insertion rules are listed separately: their scanner has known findings)
-                        let rules = strs(&case["groups"][i]);
-                        let kind = |r: &str| { let r = r.split(";;").next().unwrap_or(""); let (inp, rest) = r.split_once('>').unwrap_or((r, "")); let out = rest.split(['/', '|']).next().unwrap_or("").trim();
-                            if inp.trim().trim_end_matches(['=', '-']).trim() == "*" || inp.contains('∅') { "insertion" } else if out == "*" || out == "∅" { "deletion" } else if out == "&" { "metathesis" } else { "substitution" } };
-                        let mut kinds: Vec<&str> = rules.iter().map(|r| kind(r)).collect(); kinds.sort(); kinds.dedup();
-                        let out_of = |r: &str| -> String { let r = r.split(";;").next().unwrap_or(""); r.split_once('>').map(|x| x.1).unwrap_or("").split(['/', '|']).next().unwrap_or("").to_string() };
-                        let syll_out = rules.iter().any(|r| { let o = out_of(r); o.contains('<') || o.contains('⟨') || o.split_whitespace().any(|tk| tk.chars().next().map(|c| c.is_ascii_digit()).unwrap_or(false)) });
-                        let tag = if kinds.contains(&"insertion") { "a group with an insertion rule".to_string() } else if syll_out { "a group substituting a structure or a variable".to_string() } else { kinds.join("+") };
+                        let tag = group_tag(&strs(&case["groups"][i]));
                         return Outcome::fail(format!("{v} after {tag}"), json!({"groups": case["groups"], "word": word, "after_group": i, "state": MWord::from_asca(s).show(), "before": prev.show()}))
                     }
                     let m = MWord::from_asca(s);
